@@ -495,6 +495,24 @@ pub fn c04_snips() -> Vec<Snip> {
         ("pu-in-fn-closure", "hh :: fn -> int\n gg :: pu -> int\n  {U}\n  1\n end\n gg()\n end"),
         ("pu-closure-in-branch", "if k == 7 do\n hh :: pu -> int\n  {U}\n  1\n end\nend"),
     ];
+    // a declaration inside a nested scope shadows an outer name; after the scope the outer name is meant again
+    let scopes: [(&str, &str); 8] = [
+        ("if-branch", "if k == 7 do\n {D}\nend"),
+        ("else-branch", "if k == 8 do\n zy :: 0\nelse do\n {D}\nend"),
+        ("elif-branch", "if k == 8 do\n zy :: 0\nelif k == 7 do\n {D}\nend"),
+        ("case-arm", "case (E.A 1) do\n A q -> do\n  {D}\n end\n else do end\nend"),
+        ("case-else", "case E.B do\n A q -> do end\n else do\n  {D}\n end\nend"),
+        ("loop-body", "loop do\n {D}\n break\nend"),
+        ("do-block", "do\n {D}\nend"),
+        ("single-statement-do-block-in-branch", "if k == 7 do\n do\n  {D}\n end\nend"),
+    ];
+    for (sn, sc) in scopes {
+        out.push(Snip::owned(format!("assign-constant-after-shadowing-scope:{}", sn), Kind::S, format!("w :: 1\n{}\nw = 3", sc.replace("{D}", "w := 2")), format!("w := 1\n{}\nw = 3", sc.replace("{D}", "w := 2"))));
+        out.push(Snip::owned(format!("opassign-global-constant-after-shadowing-scope:{}", sn), Kind::S, format!("{}\nk += 3", sc.replace("{D}", "k := 2")), format!("{}\nm += 3", sc.replace("{D}", "m := 2"))));
+        if sn != "loop-body" {
+            out.push(Snip::owned(format!("pure-read-mutable-after-shadowing-scope:{}", sn), Kind::SPure, format!("{}\nzz :: m", sc.replace("{D}", "m :: 5")), format!("{}\nzz :: k", sc.replace("{D}", "k :: 5"))));
+        }
+    }
     for (dn, dm, dc) in decls {
         for (un, u) in uses {
             for (sn, sh) in shells {
@@ -562,6 +580,8 @@ pub fn c05_prelude() -> Vec<Top> {
         }
     }
     tops.push(Top::Raw("XB :: externblob { v: int }".into()));
+    tops.push(Top::Raw("MO :: blob { a: int, mk: fn -> int }".into()));
+    tops.push(Top::Raw("MI :: blob { b: int, get: fn -> int }".into()));
     tops
 }
 
@@ -698,6 +718,11 @@ pub fn c05_snips() -> Vec<Snip> {
         ("tuple-len-argument", "w :: fn q: (int, int) do end\nw((1,))", "w :: fn q: (int, int) do end\nw((1, 2))"),
         ("externblob-instance", "zz :: XB { v: 1 }", "zz :: P { x: 1 }"),
         ("externblob-instance-empty", "zz :: XB { }", "zz :: P { x: 1 }"),
+        // `self` of an inner blob literal must not outlive that literal: the outer method's self has no field `b`
+        ("absent-field-on-self-after-inner-blob-literal", "mo :: MO { a: 1, mk: fn -> int\n mi :: MI { b: 2, get: fn -> int\n  self.b\n end }\n self.b\nend }", "mo :: MO { a: 1, mk: fn -> int\n mi :: MI { b: 2, get: fn -> int\n  self.b\n end }\n self.a\nend }"),
+        ("absent-field-on-self-after-inner-blob-literal-in-branch", "mo :: MO { a: 1, mk: fn -> int\n if true do\n  mi :: MI { b: 2, get: fn -> int\n   self.b\n  end }\n end\n self.b\nend }", "mo :: MO { a: 1, mk: fn -> int\n if true do\n  mi :: MI { b: 2, get: fn -> int\n   self.b\n  end }\n end\n self.a\nend }"),
+        ("absent-field-on-self-in-later-value-field", "mo :: MO { a: 1, mk: fn -> int\n mi :: MI { get: fn -> int\n  self.b\n end, b: self.b }\n mi.b\nend }", "mo :: MO { a: 1, mk: fn -> int\n mi :: MI { get: fn -> int\n  self.b\n end, b: self.a }\n mi.b\nend }"),
+        ("absent-field-on-self", "mo :: MO { a: 1, mk: fn -> int\n self.nope\nend }", "mo :: MO { a: 1, mk: fn -> int\n self.a\nend }"),
     ] {
         out.push(Snip::owned(id.to_string(), Kind::S, f.to_string(), t.to_string()));
     }
